@@ -17,6 +17,8 @@ def run(ctx):
     ht = repo.mod(HT)
     from .common_url import rule_punycode
     rule_punycode(ctx, "R7")
+    from .common_trie import rule_hostset_model
+    rule_hostset_model(ctx, "R8", 3 if ctx.tier == "thorough" else 2)
     ctx.rule("R1", "one tokenizer for writer and reader: add and match both key the trie with tokenize_hostname; match takes the host from safe_urlsplit(url).hostname on every path; tokenize_hostname strips, lower-cases, punycode-decodes per label and reverses the labels; the stored value is a truthy constant and match answers bool(longest prefix value)")
     # tokenize_hostname
     ref = ht.func("tokenize_hostname")
